@@ -44,7 +44,7 @@ theorem ipc_trailer_constants :
 
 /-- **Source shape of the modelled readers**: the guards that `next`/`pushNext`/`trailerCheck`,
 `decodeRecords` and `specAvro` mirror are still written the way they were modelled
-(`read_meta_len`: `UnexpectedEof` on the first word → `Ok(None)`, `?` on the second word, `0` →
+(`read_meta_len`: nothing before the first word → `Ok(None)`, a cut inside it → error, `?` on the second word, `0` →
 `Ok(None)`, negative → error; `maybe_next`: short metadata → error, body `read_exact`;
 `read_footer_length` and the `End(-10 - footer_len)` seek; `FooterTail` magic comparison;
 `StreamDecoder::{decode, finish}` loop condition, end-of-stream state and accepted final states;
